@@ -1070,6 +1070,7 @@ def execute(trace, ctx):
                            displacement_module, sim_type, *extra, **kw)
             watch.phase = "done"
             info["returned"] = np.array(out, dtype=float, copy=True)
+            info["returned_raw"] = out
             return out
 
         old_sf, old_ss = Alignment.STEPS_FACTOR, Alignment.SIGMA_SCALE
@@ -1171,6 +1172,17 @@ def execute(trace, ctx):
     # ---- repeat: the outcome is a deterministic function of inputs and seed ---------------------------
     ali2, _, outcome2, info2, _ = run(False)
     final2 = _final(trace, ali2, info2)
+    # the array the FIRST search returned is still with its caller: the searches that ran since must not have written to it
+    raw1 = info.get("returned_raw")
+    if raw1 is not None and "returned" in info:
+        try:
+            same_ = np.array_equal(np.asarray(raw1, dtype=float), info["returned"])
+        except Exception:
+            same_ = False
+        if not same_:
+            ctx.violate("C09", "returned-changed-later", "the configuration returned by a finished search changed when a later "
+                                                         "search ran (it is no longer the last accepted configuration of its "
+                                                         "own search)")
     if outcome2 != outcome or any(not np.array_equal(a, b) for a, b in zip(final1, final2)):
         ctx.violate("C06", "not-repeatable", "two executions with the same inputs and the same random seed ended in different "
                                              "configurations")
